@@ -32,9 +32,11 @@ def test_results(tree):
 def run_demo(gopherjs, demo):
     d = tempfile.mkdtemp(prefix='demo-')
     for f in os.listdir(demo):
+        if os.path.isdir(os.path.join(demo, f)) and not f.startswith('.'):
+            shutil.copytree(os.path.join(demo, f), os.path.join(d, f))
         if f.endswith('.go') or f == 'go.mod':
             shutil.copy(os.path.join(demo, f), d)
-    rc, out = sh([gopherjs, 'build', '-o', 'out.js', '.'], cwd=d)
+    rc, out = sh([gopherjs, 'build', '-o', 'out.js'] + (['-m'] if os.environ.get('SEED_MINIFY') else []) + ['.'], cwd=d)
     if rc != 0:
         shutil.rmtree(d)
         return 'BUILD FAILED\n' + out
